@@ -67,6 +67,17 @@ func (c *LogCache) StoreLogs(logs []*Log) error {
 	err := c.store.StoreLogs(logs)
 	// Insert the logs into the ring buffer, but only on success
 	if err != nil {
+		// A store that reports an error may still have written some or all of
+		// the batch, so whatever we cache for these indexes can no longer be
+		// trusted to be what the store holds: forget it.
+		c.l.Lock()
+		for _, l := range logs {
+			slot := l.Index % uint64(len(c.cache))
+			if cached := c.cache[slot]; cached != nil && cached.Index == l.Index {
+				c.cache[slot] = nil
+			}
+		}
+		c.l.Unlock()
 		return fmt.Errorf("unable to store logs within log store, err: %q", err)
 	}
 	c.l.Lock()
